@@ -63,7 +63,7 @@ STYLE_OPTION_POOL = {
 }
 
 TEXT_LINES = ['foo', 'bar', 'baz qux', '', 'http://emmet.io', 'info@emmet.io', 'www.emmet.io', '<div>line1</div>',
-              '  indented', 'a $ b', 'x${1:y}', 'tab\there', 'é ü', 'one two three', '* item', '1. num', '- dash', '$#', '\\$']
+              '  indented', 'a $ b', 'x${1:y}', 'tab\there', 'é ü', 'one two three', '* item', '1. num', '- dash', '$#', '\\$', '\U0001F600 x']
 TEXT_STRINGS = ['foo', 'http://emmet.io', 'info@emmet.io', 'foo\nbar', '<div>foo</div>', 'a\r\nb', 'www.x.org', '  ', 'x y', 'long text here']
 
 PEER_STYLES = ['identity', 'textmate', 'marker', 'escape', 'double', 'drop', 'upper', 'mixed']
@@ -246,6 +246,10 @@ class Gen:
                 tags.append('numdef')
             elif r < 0.55:
                 abbr = pick(rng, ga.DEPENDENT_PROBES)
+            elif r < 0.63:
+                abbr = pick(rng, sorted(ga.FOLLOW_UPS))
+            elif r < 0.68 and spec.get('syntax') in ga.SYNTAX_PROBES:
+                abbr = pick(rng, ga.SYNTAX_PROBES[spec['syntax']])
             elif r < 0.7:
                 abbr = pick(rng, ga.STYLESHEET_CORPUS)
             else:
@@ -259,6 +263,8 @@ class Gen:
                 tags.append('text-probe')
             elif (reveal or r < 0.25) and feat['bem']:
                 abbr = pick(rng, PROBE_BEM[4:] if (spec.get('context') and maybe(rng, 0.7)) else PROBE_BEM)
+            elif r < 0.1 and spec.get('syntax') in ga.SYNTAX_PROBES:
+                abbr = pick(rng, ga.SYNTAX_PROBES[spec['syntax']])
             elif r < 0.35:
                 abbr = pick(rng, ga.MARKUP_CORPUS)
             elif r < 0.45 and user:
@@ -357,6 +363,11 @@ class Gen:
                     ops.append(op)
                     # after the host touched a config, look at it
                     touched = op.get('cfg') or op.get('dst')
+                    if op['op'] == 'poke_cfg':
+                        # the poked Config itself has no reference any more: look at the OTHER configs
+                        others = [c for c in sorted(live) if c != touched and live[c].get('holder') != 'none'
+                                  and live[c].get('type', 'markup') == live[touched].get('type', 'markup')]
+                        touched = pick(rng, others) if others else None
                     if touched in live and maybe(rng, 0.6):
                         reveal_on = touched
                     continue
@@ -416,6 +427,12 @@ class Gen:
             if tags:
                 op['tags'] = tags
             ops.append(op)
+            if op['abbr'] in ga.FOLLOW_UPS and stype == 'stylesheet' and 'fault' not in op:
+                # the same keyword again with fewer / no arguments, on a config sharing the cache
+                peers = [c for c in cids if live[c].get('type') == 'stylesheet' and live[c].get('cache') == spec.get('cache')
+                         and (spec.get('cache') is not None or c == cid)]
+                ops.append({'op': 'call', 'cfg': pick(rng, peers or [cid]), 'abbr': pick(rng, ga.FOLLOW_UPS[op['abbr']]),
+                            'pin': rng.randrange(1000)})
         # closing probes: every config whose last call failed (or was faulted) is asked once
         # more, so that damage done by the last ops of a history cannot go unobserved
         last = {}
@@ -446,6 +463,8 @@ class Gen:
         held = [c for c in sorted(live) if live[c].get('holder') == 'Config']
         if held:
             choices.append('rebuild_cfg')
+            if maybe(rng, 0.5):
+                choices.append('poke_cfg')
         if not choices:
             return None
         kind = pick(rng, choices)
@@ -455,6 +474,15 @@ class Gen:
             return {'op': 'set_global', 'global': 'g0', 'layer': gen_global_layer(rng, sw)}
         if kind == 'rebuild_cfg':
             return {'op': 'rebuild_cfg', 'cfg': pick(rng, held)}
+        if kind == 'poke_cfg':
+            cid = pick(rng, held)
+            style = live[cid].get('type') == 'stylesheet'
+            sec, key, val = pick(rng, [('options', 'stylesheet.intUnit', 'pk'), ('options', 'stylesheet.after', ' /*pk*/;'),
+                                       ('snippets', 'm', 'margin-poked:1'), ('variables', 'lang', 'pk')] if style else
+                                 [('options', 'output.indent', '<pk>'), ('options', 'output.selfClosingStyle', 'xml'),
+                                  ('snippets', 'a', 'a.poked'), ('snippets', 'img', 'img.poked'), ('variables', 'lang', 'pk'),
+                                  ('variables', 'charset', 'pk')])
+            return {'op': 'poke_cfg', 'cfg': cid, 'section': sec, 'key': key, 'value': val}
         if kind == 'clone_cfg':
             src = pick(rng, editable)
             dst = '%sx%d' % (src, n_clones)
